@@ -542,7 +542,7 @@ def oracle_ops(case, obs):
 CHECK = Check(
     id="C15",
     title="Phenotype/covariate files round-trip bit-exactly; table operations are exact",
-    theorems=["C15.parse_render", "C15.bad_rows_skipped_not_shifted", "C15.parsed_row_is_its_line", "C15.leading_comments_ignored", "C15.names_made_unique", "C15.repeated_name_made_unique", "C15.uniqNamesOld_collision_witness", "C15.decimal_reads_as_at_most_one_double", "C15.float_codec_contract", "C15.exact_value_reads_back", "C15.checked_token_reads_back_everywhere", "C15.bits_decode_canonical", "C15.value_handed_out_is_the_correct_reading", "C09R.standardize_mean_zero", "C09R.standardize_var_one", "C09R.code_algorithm_is_standardize", "C09R.second_centring_is_identity"],
+    theorems=["C15.parse_render", "C15.bad_rows_skipped_not_shifted", "C15.parsed_row_is_its_line", "C15.leading_comments_ignored", "C15.names_made_unique", "C15.repeated_name_made_unique", "C15.uniqNamesOld_collision_witness", "C15.decimal_reads_as_at_most_one_double", "C15.float_codec_contract", "C15.exact_value_reads_back", "C15.checked_token_reads_back_everywhere", "C15.bits_decode_canonical", "C15.value_handed_out_is_the_correct_reading", "C15R.every_decimal_has_exactly_one_reading", "C15R.certified_reader_is_total", "C09R.standardize_mean_zero", "C09R.standardize_var_one", "C09R.code_algorithm_is_standardize", "C09R.second_centring_is_identity"],
     imports=("HapModel", "HapReal"),
     build_targets=("HapModel", "HapReal"),
     sections=[
@@ -562,7 +562,7 @@ CHECK = Check(
         ),
         Section(
             name="read_handwritten",
-            theorems=["C15.bad_rows_skipped_not_shifted", "C15.parsed_row_is_its_line", "C15.leading_comments_ignored", "C15.decimal_reads_as_at_most_one_double", "C15.checked_token_reads_back_everywhere", "C15.value_handed_out_is_the_correct_reading"],
+            theorems=["C15.bad_rows_skipped_not_shifted", "C15.parsed_row_is_its_line", "C15.leading_comments_ignored", "C15.decimal_reads_as_at_most_one_double", "C15.checked_token_reads_back_everywhere", "C15.value_handed_out_is_the_correct_reading", "C15R.every_decimal_has_exactly_one_reading", "C15R.certified_reader_is_total"],
             gen=gen_parse,
             impl=impl_parse,
             model_req=model_req_parse,
@@ -587,6 +587,6 @@ CHECK = Check(
     ],
     trusted=["numpy array2string(floatmode='unique') prints every finite double as a decimal inside its rounding interval, and float64(token) rounds correctly (each written / read token of the run is decided exactly in Lean; that it holds for all doubles is not proved – no formalisation of Dragon4 / strtod)", "csv module tab splitting"],
     assumptions=["sample IDs and name tokens contain no tab or newline; values are finite"],
-    partial="proved: a decimal is the correctly rounded reading of at most one double, hence any writer that stays inside the rounding interval is inverted by any correctly rounding reader (float_codec_contract); decided exactly per token of the run: that the real writer's tokens lie inside the interval. Not proved: that Dragon4 shortest printing does so for every double and that strtod rounds correctly for every token",
+    partial="proved: a decimal is the correctly rounded reading of at most one double, hence any writer that stays inside the rounding interval is inverted by any correctly rounding reader (float_codec_contract); decided exactly per token of the run: that the real writer's tokens lie inside the interval. also proved: every decimal value has exactly one correctly rounded double (existence by the nearest-integer division of the certified reader, which therefore never fails). Not proved: that Dragon4 shortest printing stays inside the interval for every double and that strtod rounds correctly for every token",
     anchors=[("haptools/data/phenotypes.py", ["Phenotypes.write", "Phenotypes.__iter__", "Phenotypes._iterate", "Phenotypes.read", "Phenotypes.standardize", "Phenotypes.append", "Phenotypes.subset", "Phenotypes.check_missing"])],
 )
